@@ -35,6 +35,7 @@ def units(tier):
         H("C04", M, "check_worker_contains_3" if big else "check_worker_contains_2", 1500 if big else 300,
           [PE + "_process_worker", PE + "_sendback_result", PE + "_ExceptionWithTraceback.__init__"],
           "<=3 / <=2 call items, outcome per item in {return, raise Exception, SystemExit, KeyboardInterrupt, result unpicklable}, values symbolic ints"),
+        H("C04", M, "check_process_chunk_raises", t, [PE + "_process_chunk"], "chunks of 1..3 items each returning or raising Exception/StopIteration/KeyboardInterrupt/SystemExit"),
         H("C04", M, "check_rebuild_exc", t, [PE + "_ExceptionWithTraceback.__reduce__", PE + "_rebuild_exc"], "4 exception classes incl. SystemExit/KeyboardInterrupt, args symbolic ints"),
         H("C04", M, "check_callbacks", t, ["loky._base:Future._invoke_callbacks"], "<=4 callbacks each {ok, raises Exception, SystemExit, KeyboardInterrupt}"),
     ]
